@@ -364,6 +364,29 @@ pub fn run(args: &Args) -> (Meta, Stats) {
                 bodies.push(format!("&#1{};", "0".repeat(digits)));
                 bodies.push(format!("&#x1{}", "0".repeat(digits)));
             }
+            // values that are small again modulo 2^8 / 2^16 / 2^21 / 2^31 / 2^32 / 2^63 / 2^64 (an accumulator that
+            // wraps, or a sticky overflow flag that is recomputed, would resolve them to an ordinary character)
+            for shift in [8u32, 16, 21, 24, 31, 32, 33, 40, 63, 64, 65, 96] {
+                for mult in [1u128, 2, 3, 0xffff] {
+                    for k in [0u128, 1, 0x3c, 0x41, 0x80, 0x9f, 0xd800, 0xfffe, 0x10ffff, 0x110000] {
+                        let v: u128 = mult.wrapping_mul(1u128 << shift).wrapping_add(k);
+                        bodies.push(format!("&#{v};"));
+                        bodies.push(format!("&#x{v:x};"));
+                        bodies.push(format!("&#X{v:X}"));
+                    }
+                }
+            }
+            // digit by digit: one more digit after an overflow, after the maximum, after a wrap
+            for head in ["1114111", "1114112", "4294967295", "4294967296", "429496729", "18446744073709551615", "18446744073709551616"] {
+                for d in 0..10 {
+                    bodies.push(format!("&#{head}{d};"));
+                }
+            }
+            for head in ["10ffff", "110000", "ffffffff", "100000000", "10000000", "ffffffffffffffff", "10000000000000000"] {
+                for d in ["0", "1", "4", "8", "a", "f"] {
+                    bodies.push(format!("&#x{head}{d};"));
+                }
+            }
             for b in ["&", "&;", "&#", "&#x", "&#X", "&#;", "&#x;", "&1", "& ", "&=", "&#z", "&#xg", "&#x;", "&##", "&&amp;", "&amp;&amp", "&#65;&#66", "&é", "&\u{10ffff};"] {
                 bodies.push(b.to_string());
             }
